@@ -41,5 +41,36 @@ def remapRequestSize (newSize : Nat) (userOffset : Nat) (granularity : Nat) : Na
   (alignUp (((((40 : Nat) + (locAlignToBin ((newSize + userOffset) % 2^64))) % 2^64) + (64 : Nat)) % 2^64) granularity)
 def remapReject (newSize : Nat) (userOffset : Nat) (granularity : Nat) : Bool :=
   (((decide ((locAlignToBin ((newSize + userOffset) % 2^64)) < newSize)) || (decide ((alignUp (((((40 : Nat) + (locAlignToBin ((newSize + userOffset) % 2^64))) % 2^64) + (64 : Nat)) % 2^64) granularity) < (locAlignToBin ((newSize + userOffset) % 2^64))))))
+def poolCreateInvalid (pAlloc : Nat) (pFree : Nat) (version : Int) (fixedPool : Bool) (reserved : Nat) : Bool :=
+  (((!(decide (pAlloc ≠ 0))) || (decide (version < (1 : Int)))) || (!(fixedPool || (decide (pFree ≠ 0)))))
+def poolCreateUnsupported (pAlloc : Nat) (pFree : Nat) (version : Int) (fixedPool : Bool) (reserved : Nat) : Bool :=
+  ((decide (version > (1 : Int))) || (decide (reserved ≠ 0)))
+def poolVersion : Int := 1
+def poolAlignedMallocReject (size : Nat) (alignment : Nat) : Bool :=
+  ((!(isPowerOfTwo alignment)) || (decide ((0 : Nat) = size)))
+def poolAlignedReallocReject (size : Nat) (alignment : Nat) : Bool :=
+  (!(isPowerOfTwo alignment))
+def reallocCopyLen (copySize : Nat) (newSize : Nat) : Nat :=
+  (if (decide (copySize < newSize)) then copySize else newSize)
+def cacheAlignedReject (size : Nat) (cache_line_size : Nat) : Bool :=
+  (decide (((size + cache_line_size) % 2^64) < size))
+def scalableAllocatorReject (n : Nat) (sizeofT : Nat) : Bool :=
+  (decide (n > ((wrapU 64 (wrapS 32 ((0 : Int) - (1 : Int)))) / sizeofT)))
+def scalableAllocatorArg (n : Nat) (sizeofT : Nat) : Nat :=
+  ((n * sizeofT) % 2^64)
+def poolAllocatorReject (n : Nat) (sizeofT : Nat) : Bool :=
+  (decide (n > ((wrapU 64 (wrapS 32 ((0 : Int) - (1 : Int)))) / sizeofT)))
+def poolAllocatorArg (n : Nat) (sizeofT : Nat) : Nat :=
+  ((n * sizeofT) % 2^64)
+def cacheAlignedAllocatorArg (n : Nat) (sizeofT : Nat) : Nat :=
+  ((n * sizeofT) % 2^64)
+def tbbAllocatorArg (n : Nat) (sizeofT : Nat) : Nat :=
+  ((n * sizeofT) % 2^64)
+def carCorrectSize (bytes : Nat) (alignment : Nat) (cache_line_size : Nat) : Nat :=
+  (if (decide (bytes < (8 : Nat))) then (8 : Nat) else bytes)
+def carCorrectAlignment (bytes : Nat) (alignment : Nat) (cache_line_size : Nat) : Nat :=
+  (if (decide (alignment < cache_line_size)) then cache_line_size else alignment)
+def carSpace (bytes : Nat) (alignment : Nat) (cache_line_size : Nat) : Nat :=
+  (((carCorrectSize bytes alignment cache_line_size) + (carCorrectAlignment bytes alignment cache_line_size)) % 2^64)
 
 end TbbVerif.Generated.C18
